@@ -92,6 +92,32 @@ func runC03(c *Ctx) {
 				return true
 			}
 		}
+		// or behind a helper of the package that answers true only when it won that CAS
+		for _, g := range guardsAt(in.Block()) {
+			call, ok := g.Cond.(*ssa.Call)
+			if !ok || !g.True {
+				continue
+			}
+			h := call.Common().StaticCallee()
+			if h == nil || h.Blocks == nil || h.Pkg != in.Parent().Pkg {
+				continue
+			}
+			var cas ssa.Instruction
+			forEachInstr(h, false, func(_ *ssa.Function, x ssa.Instruction) {
+				if cc, ok := x.(*ssa.Call); ok && isAtomicCall(cc.Common(), "CompareAndSwap") {
+					if _, f, _, ok := fieldAddrInfo(cc.Common().Args[0]); ok && f == field {
+						o, ok1 := constInt(cc.Common().Args[1])
+						n, ok2 := constInt(cc.Common().Args[2])
+						if ok1 && ok2 && o == old && n == new {
+							cas = x
+						}
+					}
+				}
+			})
+			if cas != nil && returnsTrueOnlyWhen(h, cas) {
+				return true
+			}
+		}
 		return false
 	}
 	// timeout handlers: every call site behind the CAS
